@@ -447,6 +447,7 @@ class CallMixin:
         try:
             from .verify import Verifier
             v = Verifier(self.prog, self.cfg)
+            v.footprint_only = True   # execute the body, skip the evaluation of its postconditions
             v.verify(f)
             fp = set(x for x in v.events_seen if not x.startswith("select.arm:"))
             if getattr(v, "footprint_unknown", False):
@@ -465,6 +466,8 @@ class CallMixin:
             import re as _re
             for cl in c.clauses:
                 care |= set(_re.findall(r'zz(?:Calls|Seq|Arg|Ret|Recv)(?:\[[^\]]*\])?\("([^"]+)"', cl.get("text") or ""))
+        if not care:
+            return []   # no clause of the loaded packages observes any operation: nothing to havoc
         names = set(self.contract_emits(f))
         fp = self.footprint(f)
         if fp is None:
@@ -849,7 +852,7 @@ class CallMixin:
         (e.g. a callee whose `modifies` omits a field it writes: the caller would keep the stale value, the assumed
         postcondition would contradict it, and everything after the call would verify vacuously)."""
         new = [x for x in self.facts[n0:] if not z3.is_true(x)]
-        if not new:
+        if not new or os.environ.get("GOVC_NO_CALLCHECK"):
             return
         s1 = z3.Solver()
         s1.set("timeout", 400)
